@@ -558,8 +558,8 @@ Store(e, v, fr) ==
                 loc == LocOf(n.l)
                 et == Nd(e).ty
             IN IF i.f # {} THEN [fr |-> fr, th |-> th, f |-> i.f]
-               ELSE IF loc = <<>> \/ loc[1] = "arg" THEN [fr |-> fr, th |-> th, f |-> {U("store target")}]
-               ELSE IF IsSliceTy(Nd(n.l).ty)
+               ELSE IF (loc = <<>> \/ loc[1] = "arg") /\ ~IsSliceTy(Nd(n.l).ty) THEN [fr |-> fr, th |-> th, f |-> {U("store target")}]
+               ELSE IF IsSliceTy(Nd(n.l).ty)     \* (also a slice-typed parameter: its value points into a field of the receiver)
                THEN \* store through a slice: the element lives in the array the slice points into (aliasing is real)
                     LET sv == Eval(n.l, C) IN
                     IF sv.f # {} THEN [fr |-> fr, th |-> th, f |-> sv.f]
